@@ -336,8 +336,8 @@ def build(seed, tier, g, place, driver, exit_code=None, sweep=False, capture=Fal
             procs['ssp'] = {'exit': 0, 'stdout': 'from-setup-stdin-program\n'}
     cd = g.random() < 0.3 and pkind != 'act_null'
     # (a -transformed-by line after a -stdin line would bind to the stdin's TEXT-SOURCE: only without stdin here)
-    transform = g.random() < 0.3 and pkind in ('file_stdout_from', 'stdout_from', 'act_command_line') and \
-        len(prog['lines']) == 1
+    transform = g.random() < (0.5 if pkind == 'stderr_from' else 0.3) and \
+        pkind in ('file_stdout_from', 'stdout_from', 'stderr_from', 'act_command_line') and len(prog['lines']) == 1
     m_ = prog['model']
     # the same program symbol used a second time, later, with other arguments: nothing of the first use may stick
     second_use = bool(m_ and m_.get('use_symbol') and not m_['shell'] and ph != 'cleanup' and g.random() < 0.5 and
@@ -351,7 +351,11 @@ def build(seed, tier, g, place, driver, exit_code=None, sweep=False, capture=Fal
             'place': pkind, 'phase': ph, 'tree': tree, 'procs': procs, 'setup_stdin': setup_stdin,
             'cd': cd, 'transform': transform, 'capture': capture, 'sweep': sweep,
             'act_source': ['source line one', '  indented "two"'] if pkind == 'act_source_interpreter' else None,
-            'act_file_args': "a1 'a 2'" if pkind == 'act_file_interpreter' else None}
+            # (the last argument may be given as text-until-end-of-line: everything after ':>', verbatim)
+            'act_file_args': g.choice(["a1 'a 2'", "a1 'a 2' :> text until  the end", ":> x  y z"])
+            if pkind == 'act_file_interpreter' else None,
+            # a file need not end with a new-line: the last line of the case is what it is all the same
+            'no_final_newline': g.random() < 0.2}
     return plan
 
 
@@ -439,7 +443,8 @@ def render(plan):
         target.append('%s -from %s' % ('stdout' if pk == 'stdout_from' else 'stderr', indented[0]))
         target.extend(indented[1:])
         target.extend(tr)
-        want = exp_out if pk == 'stdout_from' else T['stderr']
+        # the transformation of the program applies to the channel that is looked at
+        want = exp_out if pk == 'stdout_from' else (T['stderr'].upper() if plan['transform'] else T['stderr'])
         target.append('  ' + _equals(want))
     elif pk == 'transformer':
         if plan['cd']:
@@ -472,6 +477,8 @@ def render(plan):
     for p in ('before-assert', 'assert', 'cleanup'):
         out.append('[%s]' % p)
         out.extend(lines[p])
+    if plan.get('no_final_newline') and out[-1] != 'EOF':
+        return '\n'.join(out)
     return '\n'.join(out) + '\n'
 
 
@@ -597,7 +604,9 @@ def expected_spawn(plan):
         return {'shell': True, 'args': line, 'stdin': stdin, 'cwd': cwd}
     argv = list(m['head']) + args
     if pk == 'act_file_interpreter':
-        argv = argv + ['$HOME/src.py', 'a1', 'a 2']
+        fa = plan.get('act_file_args') or "a1 'a 2'"
+        argv = argv + ['$HOME/src.py'] + (['a1', 'a 2'] if fa.startswith('a1') else []) + \
+            ([fa.split(':> ', 1)[1]] if ':> ' in fa else [])
     if pk == 'file_matcher':
         argv = argv + ['$SBX/act/g.txt']
     return {'shell': False, 'args': argv, 'stdin': stdin, 'cwd': cwd}
